@@ -12,6 +12,18 @@ import c06gen as G
 
 INF = G.INF
 N_THEOREMS = 22
+NUMTOK = re.compile(r'-?\d+(?:p-?\d+)?')
+
+
+def not_a_double(line):
+    """true if a number printed by the exact model is not representable as a double (non-dyadic, or an odd
+    mantissa of 2^53 or more): the real computation was rounded there"""
+    if '/' in line:
+        return True
+    for t in NUMTOK.findall(line):
+        if abs(int(t.split('p')[0])) >= 2 ** 53:
+            return True
+    return False
 
 
 def build_harness(ck):
@@ -335,7 +347,7 @@ def run(ck):
             n_lines += 1
             a, b = op_impl[k], (op_model[k] if k < len(op_model) else '<missing>')
             distinct.add((op[0], a.split(' ')[0], ' '.join(op[1:])[:60]))
-            if '/' in b:
+            if not_a_double(b):
                 # a non-dyadic number in the exact model: the double computation of the real code was rounded here
                 n_inexact += 1
                 op_impl = op_impl[:k] + ['unsupported'] * (len(c.ops) - k)
@@ -395,6 +407,11 @@ def run(ck):
            (len(cases), n_lines, stats['evaluations'], stats['bound_checks'], sum(len(v) for v in corr_bad.values()), n_unsupported))
     ck.log('op kinds: %s' % json.dumps(kinds, sort_keys=True))
     ck.log('outcomes: %s' % json.dumps(stats['outcome'], sort_keys=True))
+    if not quick:
+        try:
+            e2e_abs(ck)
+        except Exception as ex:   # recsolver not buildable: reported, not fatal for the property verdict
+            ck.notes.append('e2e_abs skipped: %r' % (ex,))
     ck.assumptions += [
         'double arithmetic is exact on the generated data (dyadic, bounded mantissa growth); rounding of bounds is outside the model',
         'arguments of and/or/not/implication/if-then conditions are binary variables (asserted by the C++ in debug builds)',
@@ -402,6 +419,38 @@ def run(ck):
         'converter options at their defaults (cvt:pre:eqresult=1, cvt:pre:eqbinary=1, cvt:pre:unnest=1)']
     ck.cov['trusted_base'] += ['harness/h_prepro.cc (calls FlatConverter::AssignResult2Args of MIPFlatConverter built from the current tree with -DNDEBUG)',
                                'gen/c06gen.py reference semantics of the flat constraints (exact fractions; libm for transcendental values)']
+
+
+def e2e_abs(ck):
+    """End-to-end replay of finding C06-abs-fixed-negative through the NL reader, flattener and a recording ModelAPI
+    (harness/recsolver): NL model  x0 in [7,9], x1 fixed at -2, s.t. abs(x1) <= 5  (feasible: |x1| = 2).
+    Every delivered linear constraint over the original variables must hold at the NL-feasible point (7,-2)."""
+    import recsolver as R
+    import nlgen as N
+    exe = R.build(ck)
+    m = N.Model()
+    x0 = m.var(7, 9); x1 = m.var(-2, -2)
+    m.obj('min', lin={x0: 1})
+    m.con(None, 5, lin={x0: 0}, nl=('abs', ('v', x1)))
+    d = os.path.join(BUILD, 'c06_e2e'); os.makedirs(d, exist_ok=True)
+    stub = os.path.join(d, 'absfix')
+    m.write(stub)
+    res = R.run(exe, stub, accept='LinConRange,LinConLE,LinConEQ,LinConGE,AbsConstraint')
+    pt = {0: F(7), 1: F(-2)}
+    n = 0
+    for ev in res['log']:
+        if ev.get('ev') == 'con' and ev['type'].startswith('LinCon'):
+            b = ev['data']['body']
+            if all(v in pt for v in b['v']):
+                n += 1
+                val = sum(R.num(c) * pt[v] for c, v in zip(b['c'], b['v']))
+                lo, hi = R.num(ev['data']['lb']), R.num(ev['data']['ub'])
+                if not (lo <= val <= hi):
+                    ck.add_violation('abs:fixed-negative-arg:alias-differs',
+                                     'end to end: NL model {x0 in [7,9], x1 = -2, abs(x1) <= 5} is feasible at (7,-2) but the delivered '
+                                     'constraint %s violates it (abs(x1) was replaced by x0)' % json.dumps(ev['data']),
+                                     {'nl_stub': stub, 'accept': 'AbsConstraint', 'log': res['log']}, found_input=True)
+    ck.cov['e2e_abs_constraints_checked'] = n
 
 
 def replay(ck, path):
